@@ -5,7 +5,8 @@ equal* Source / VarzBase objects (C18).  A reference model keeps, per distinct
 value and the sample stream; at the end VARZ_DATA and VarzAggregator.Aggregate
 must agree with it."""
 PROPS = ('C18',)
-RACE_PROBES = ('equal_sources_many_objects', 'gauge_a_b_a', 'reservoir_overflow', 'interleaved_writers')
+RACE_PROBES = ('equal_sources_many_objects', 'gauge_a_b_a', 'reservoir_overflow', 'interleaved_writers',
+               'aggregate_while_writing', 'metric_first_seen_during_aggregate')
 SHRINK_KEYS = ('ops',)
 
 
@@ -24,8 +25,11 @@ def generate(rng, tier='quick', **kw):
     k = rng.random()
     o = rng.randrange(n_obj)
     g = rng.randrange(3)
-    if k < 0.3:
-      ops.append({'g': g, 'op': 'count', 'obj': o, 'amt': rng.choice([1, 1, 1, 2, 5])})
+    if k < 0.04:
+      ops.append({'g': 3, 'op': 'agg'})                     # a reader aggregates while the writers run
+    elif k < 0.3:
+      ops.append({'g': g, 'op': 'count', 'obj': o, 'amt': rng.choice([1, 1, 1, 2, 5]),
+                  'name': rng.choice(['count', 'count', 'count2', 'count3'])})
     elif k < 0.45:
       ops.append({'g': g, 'op': 'rate', 'obj': o})
     elif k < 0.7:
@@ -45,7 +49,7 @@ def run(scn):
 
   class V(VarzBase):
     _VARZ_BASE_NAME = 'sim.varz'
-    _VARZ = {'count': Counter, 'rate': Rate, 'gauge': Gauge, 'lat': AverageTimer}
+    _VARZ = {'count': Counter, 'count2': Counter, 'count3': Counter, 'rate': Rate, 'gauge': Gauge, 'lat': AverageTimer}
 
   srcs = scn['sources']
 
@@ -59,7 +63,41 @@ def run(scn):
   def key(k):
     d = srcs[scn['objs'][k]]
     return (d['method'], d['service'], d['endpoint'], d['client_id'])
-  model = {'count': {}, 'rate': {}, 'gauge': {}, 'lat': {}}
+  model = {'count': {}, 'count2': {}, 'count3': {}, 'rate': {}, 'gauge': {}, 'lat': {}}
+  COUNTERS = ('count', 'count2', 'count3', 'rate')
+  agg_state = {'running': 0}
+
+  def snapshot():
+    return dict((n, dict(model[n])) for n in COUNTERS)
+
+  def aggregate_concurrently():
+    # a reader (e.g. the varz endpoint) aggregates while writers keep recording
+    before = snapshot()
+    n_metrics = len(VarzReceiver.VARZ_DATA)
+    agg_state['running'] += 1
+    REC.probe('aggregate_while_writing')
+    try:
+      a = VarzAggregator.Aggregate(VarzReceiver.VARZ_DATA, VarzReceiver.VARZ_METRICS)
+    except Exception as e:
+      REC.violation('C18', 'aggregate_raised', 'Aggregate() raised %s: %s while metrics were being recorded' % (
+        type(e).__name__, e))
+      return
+    finally:
+      agg_state['running'] -= 1
+    after = snapshot()
+    for name in COUNTERS:
+      lo, hi = {}, {}
+      for kk, w in before[name].items():
+        lo[(kk[1], kk[3])] = lo.get((kk[1], kk[3]), 0) + w
+      for kk, w in after[name].items():
+        hi[(kk[1], kk[3])] = hi.get((kk[1], kk[3]), 0) + w
+      for k2, h in hi.items():
+        got = a.get('sim.varz.' + name, {}).get(k2)
+        got = 0 if got is None else got.total
+        if not (lo.get(k2, 0) <= got <= h):
+          REC.violation('C18', 'aggregate_mismatch',
+                        'sim.varz.%s %r: concurrent aggregate %r outside [%r, %r] (increments before / after it ran)' % (
+                          name, k2, got, lo.get(k2, 0), h), {'metric': name, 'concurrent': True})
   last_writer = {}
   hist = {}
 
@@ -67,12 +105,21 @@ def run(scn):
     for op in scn['ops']:
       if op['g'] != g:
         continue
+      if op['op'] == 'agg':
+        aggregate_concurrently()
+        gevent.sleep(0)
+        continue
+      if agg_state['running'] and op['op'] != 'fresh':
+        nm = 'sim.varz.' + {'count': op.get('name', 'count'), 'rate': 'rate', 'gauge': 'gauge', 'sample': 'lat'}[op['op']]
+        if nm not in VarzReceiver.VARZ_DATA:
+          REC.probe('metric_first_seen_during_aggregate')
       k = op['obj']
       kk = key(k)
       o = objs[k]
       if op['op'] == 'count':
-        o.count(op['amt'])
-        model['count'][kk] = model['count'].get(kk, 0) + op['amt']
+        nm = op.get('name', 'count')
+        getattr(o, nm)(op['amt'])
+        model[nm][kk] = model[nm].get(kk, 0) + op['amt']
       elif op['op'] == 'rate':
         o.rate()
         model['rate'][kk] = model['rate'].get(kk, 0) + 1
@@ -92,11 +139,11 @@ def run(scn):
         REC.probe('interleaved_writers')
       last_writer['g'] = g
       gevent.sleep(0)
-  gs = [gevent.spawn(worker, g) for g in range(3)]
+  gs = [gevent.spawn(worker, g) for g in range(4)]
   gevent.joinall(gs)
 
   data = VarzReceiver.VARZ_DATA
-  for name in ('count', 'rate', 'gauge', 'lat'):
+  for name in ('count', 'count2', 'count3', 'rate', 'gauge', 'lat'):
     metric = 'sim.varz.' + name
     series = data.get(metric, {})
     by_key = {}
@@ -108,7 +155,7 @@ def run(scn):
     want = model[name]
     for kk, w in want.items():
       vals = by_key.get(kk, [])
-      if name in ('count', 'rate'):
+      if name in COUNTERS:
         got = sum(vals) if vals else 0
         if got != w:
           REC.violation('C18', 'counter_mismatch', '%s %r: recorded increments sum to %r, series holds %r' % (metric, kk, w, got),
@@ -127,7 +174,7 @@ def run(scn):
             REC.violation('C18', 'foreign_samples', '%s %r: reservoir holds values never recorded' % (metric, kk))
   # aggregation by (service, client_id)
   agg = VarzAggregator.Aggregate(data, VarzReceiver.VARZ_METRICS)
-  for name in ('count', 'rate'):
+  for name in COUNTERS:
     per = {}
     for kk, w in model[name].items():
       per[(kk[1], kk[3])] = per.get((kk[1], kk[3]), 0) + w
